@@ -209,8 +209,14 @@ def rand_case(rng, prop, idx):
     for l in links:
         l.setdefault("ex", [])
     ff = {"blocks": blocks, "links": links, "mods": []}
+    hist = []
+    if c14 and rng.random() < 0.35 and not any(l["kind"] == "explicit" for l in links):
+        # (not with explicit links: they address the atoms of one particular molecule by number)
+        # one force-field object serves several molecules in one process: one or two chains of the regular blocks are built first
+        for _ in range(rng.randint(1, 2)):
+            hist.append([rng.choice(names) for _ in range(rng.randint(2, 3))])
     start = 1 if rng.random() < 0.3 else rng.randint(1, 12)
-    inp = {"ff": idx + 1, "n": n, "start": start, "rn": rn, "fi": fi, "edges": sorted([list(e) for e in edges]), "sel": []}
+    inp = {"ff": idx + 1, "n": n, "start": start, "rn": rn, "fi": fi, "edges": sorted([list(e) for e in edges]), "sel": [], "hist": hist}
     return ff, inp
 
 
@@ -364,7 +370,7 @@ def _random_chunk(arg):
         # the order of the files on the command line is drawn too (F33, repaired: an .itp read after a .ff must leave it alone)
         paths = u.render_ff(ff, fmt, Path(wd) / ("c%d" % gi), tag="f", itp_first=rng.random() < 0.5)
         lay = u.graph_layout(inp, rng)
-        if gi % 3 == 0:       # through the real entry point and the written file
+        if gi % 3 == 0 and not inp.get("hist"):       # through the real entry point and the written file (one molecule per process)
             obs = u.run_gen_params(paths, inp, lay, Path(wd) / ("c%d" % gi))
             obs["via"] = "gen_params"
         else:
@@ -516,7 +522,7 @@ def judge(ck, prop, doc, metas, name):
     if rejected:
         sub = {"ffs": doc["ffs"], "cases": [doc["cases"][i] for i in rejected]}
         # with an open finding the rejected records are re-validated with DevAsIs to classify them exactly
-        by2 = validate(ck, prop, sub, name + "_asis", asis=True, count=False) if u.OPEN else {}
+        by2 = validate(ck, prop, sub, name + "_asis", asis=True, count=False) if u.OPEN[prop] else {}
         for j, i in enumerate(rejected):
             case, meta = doc["cases"][i], metas[i]
             ents = by2.get(j + 1, [])
